@@ -1,6 +1,7 @@
 mod engine;
 mod fault;
 mod integer;
+mod replay;
 mod world;
 mod rng;
 
@@ -17,11 +18,13 @@ fn main() {
     let mut out = BufWriter::new(f);
     match family {
         "integer" => integer::run(&mut out, seed, thorough),
+        "replay" => replay::run(&mut out, args.get(5).expect("replay needs an input file")),
         "engine" => {
             let n: usize = args.get(5).and_then(|s| s.parse().ok()).unwrap_or(if thorough { 60 } else { 20 });
             let native = match args.get(6).map(|s| s.as_str()) { Some("native") => Some(true), Some("cw20") => Some(false), _ => None };
             let real = args.get(7).map(|s| s == "real").unwrap_or(false);
-            engine::run(&mut out, seed, thorough, n, native, real)
+            let profile = args.get(8).cloned().unwrap_or_else(|| "general".to_string());
+            engine::run(&mut out, seed, thorough, n, native, real, &profile)
         }
         _ => {
             eprintln!("usage: mp_harness <family> <trace-file> <seed> [quick|thorough]");
